@@ -451,3 +451,63 @@ theorem tame_readLine (a : Nat) (text : List Nat) (n : Nat) : Tame a (readLine t
     exact tame_parseLine a
 
 end Ctrmml.Mml
+
+/-! ### lexer and scan lemmas -/
+namespace Ctrmml.Lexer
+
+theorem countBlanks_append (bl rest : List Nat) (h : ∀ c ∈ bl, isBlank (schar c) = true) :
+    LineBuffer.countBlanks (bl ++ rest) = bl.length + LineBuffer.countBlanks rest := by
+  induction bl with
+  | nil => simp
+  | cons c cs ih =>
+    have hc : isBlank (schar c) = true := h c (by simp)
+    have := ih (fun x hx => h x (by simp [hx]))
+    simp only [List.cons_append, LineBuffer.countBlanks, hc, if_true, this, List.length_cons]
+    omega
+
+theorem countBlanks_nonblank (c : Nat) (rest : List Nat) (h : isBlank (schar c) = false) : LineBuffer.countBlanks (c :: rest) = 0 := by
+  simp [LineBuffer.countBlanks, h]
+
+end Ctrmml.Lexer
+
+namespace Ctrmml.Mml
+open Ctrmml.Tables Ctrmml.Lexer Ctrmml.TrackBuilder
+
+theorem bind_apply {α β} (m : P α) (f : α → P β) (s : MmlState) :
+    (m >>= f) s = match m s with | .ok a s' => f a s' | .err e s' => .err e s' := rfl
+
+/-- `get_token()` from a cursor in front of a blank run = `get_token()` from behind it -/
+theorem getTokenC_skip (s : MmlState) (pre bl rest : List Nat) (hbl : ∀ c ∈ bl, isBlank (schar c) = true)
+    (hb : s.inp.lb = { buf := pre ++ bl ++ rest, column := pre.length }) :
+    getTokenC s = getTokenC (setLb s { buf := pre ++ bl ++ rest, column := pre.length + bl.length }) := by
+  unfold getTokenC LineBuffer.getToken
+  rw [hb]
+  simp only [setLb, List.append_assoc, List.drop_left', List.drop_append_of_le_length, List.length_append]
+  have h2 : List.drop (pre.length + bl.length) (pre ++ (bl ++ rest)) = rest := by
+    rw [← List.append_assoc, ← List.length_append]; simp
+  rw [h2, countBlanks_append bl rest hbl]
+  simp [Nat.add_assoc]
+
+theorem scanUntil_stop (stop : Int → Bool) (xs : List Nat) (c : Nat) (rest : List Nat)
+    (hxs : ∀ x ∈ xs, (schar x == 0 || stop (schar x)) = false) (hc : (schar c == 0 || stop (schar c)) = true) :
+    scanUntil stop (xs ++ c :: rest) = (xs, xs.length + 1, schar c) := by
+  induction xs with
+  | nil => simp [scanUntil, hc]
+  | cons x xs ih =>
+    have hx := hxs x (by simp)
+    have := ih (fun y hy => hxs y (by simp [hy]))
+    simp only [List.cons_append, scanUntil, hx, this, List.length_cons]
+    simp
+
+/-- a scan that meets no stopping character ends at the end of the line with 0 -/
+theorem scanUntil_none (stop : Int → Bool) (xs : List Nat) (hxs : ∀ x ∈ xs, (schar x == 0 || stop (schar x)) = false) :
+    scanUntil stop xs = (xs, xs.length + 1, 0) := by
+  induction xs with
+  | nil => simp [scanUntil]
+  | cons x xs ih =>
+    have hx := hxs x (by simp)
+    have := ih (fun y hy => hxs y (by simp [hy]))
+    simp only [scanUntil, hx, this, List.length_cons]
+    simp
+
+end Ctrmml.Mml
